@@ -296,6 +296,38 @@ def has_toplevel_nossr(v):
     return any(has_toplevel_nossr(c) for c in kids)
 
 
+def premount_cases():
+    """a signal is written after the view has been built but before it is mounted (a component body that sets a title / registers itself
+    in a list that an earlier sibling displays): the mounted DOM must be a fresh render of the state at that moment"""
+    E = lambda tag, *kids: ("el", tag, [], list(kids))
+    D = lambda k, a, b: ("dyn", k, [("text", a)], [("text", b)])
+    L = ("list", True, 0, [E("li", ("item",))])
+    LI = ("list", False, 0, [E("li", ("item",))])
+    views = [D(0, "a", "b"), ("frag", [("text", "t"), D(0, "a", "b"), E("p")]), ("show", 0, [E("p", ("text", "s"))]), L, LI,
+             ("frag", [L, E("p")]), ("comp", [D(0, "a", "b")]),
+             # controls: the same regions inside an element, and a dynamic text (updated in place)
+             E("div", D(0, "a", "b")), E("ul", L), E("div", ("show", 0, [E("p")])), ("dyntext", 0), ("frag", [("dyntext", 0), E("p")])]
+    out = []
+    for v in views:
+        st = {"s": {0: "x"}, "b": {0: True}, "l": {0: [1, 2]}}
+        for pre in ([("b", 0, False)], [("l", 0, [2, 1, 3])], [("s", 0, "y")], [("b", 0, False), ("b", 0, True)], [("l", 0, [])]):
+            for ops in ([], [("b", 0, True), ("l", 0, [3]), ("s", 0, "z")]):
+                out.append((st, v, pre, ops))
+    return out
+
+
+def premount_finding(v, pre):
+    """known finding F41: a dynamic view / Show / list whose markers have no parent yet (top level of the mount point, through fragments
+    and components) and whose controlling signal is written before the mount"""
+    top = toplevel([v])
+    kinds = {"b": ("dyn", "show"), "l": ("list",)}
+    for op in pre:
+        for t in top:
+            if t[0] in kinds.get(op[0], ()) and (t[1] if t[0] != "list" else t[2]) == op[1]:
+                return True
+    return False
+
+
 def gen(tier, rng):
     cases = nested_region_cases(tier, rng)
     n = 700 if tier == "quick" else 8000
@@ -355,7 +387,35 @@ def main(argv):
     chk.obligation("correspondence: Dom/Client.v = the real client back end on %d scenarios (structure and which nodes survive each write)" % len(sel),
                    model is not None and not mism, str(mism[:1]))
     findings = {f["key"]: f for f in vlib.load_findings(PID)}
-    real = []
+    # writes between construction and mount
+    pcases = premount_cases()
+    plines = ["(clientpre %s %s (%s) (%s))" % (viewgen.sx_state(st), viewgen.sx_view(v), " ".join(sx_op(o) for o in pre), " ".join(sx_op(o) for o in ops))
+              for st, v, pre, ops in pcases]
+    pfail = []
+    try:
+        pimpl = domlib.run(binp, plines)
+        for (st, v, pre, ops), out, line in zip(pcases, pimpl, plines):
+            bad = None
+            if out[0].startswith("PANIC"):
+                bad = {"what": "panic when a signal is written before the view is mounted", "message": bytes.fromhex(out[0][6:]).decode("utf8", "replace")[:200], "scenario": line}
+            else:
+                for k, l in enumerate(out):
+                    parts = dict(p.split(" ", 1) if " " in p else (p, "") for p in l.split(" ; "))
+                    strip = lambda ns: [(n[0], n[2]) for n in ns]
+                    if strip(parse_nodes(parts["nodes"])) != strip(parse_nodes(parts["fresh"])):
+                        bad = {"what": "the mounted DOM is not a fresh render of the current state (a write made before the mount was lost)", "step": k,
+                               "dom": bytes.fromhex(parts["dom"]).decode("utf8", "replace")[:300], "scenario": line}
+                        break
+            if bad:
+                if "F41-write-before-mount" in findings and premount_finding(v, pre) and not bad["what"].startswith("panic"):
+                    chk.known(findings["F41-write-before-mount"], "e.g. " + line[:200])
+                else:
+                    pfail.append(bad)
+    except RuntimeError as e:
+        pfail.append({"what": "driver run (pre-mount writes)", "detail": str(e)[-500:], "scenario": ""})
+    chk.obligation("oracle: a signal written between the construction of the view and its mount: the mounted DOM is a fresh render of the state at that moment, "
+                   "and so after every later write (%d scenarios)" % len(pcases), not pfail, str(pfail[:1]))
+    real = list(pfail)
     for o in orfail:
         v = cases[o["case"]][1]
         if "F15-nossr-marker-in-snapshot" in findings and has_toplevel_nossr(v) and "<no-ssr" in o.get("dom", ""):
